@@ -122,7 +122,8 @@ def filters(ctx, component):
 
     msgs = ["timeout", "Connection reset", "throttled: slow down", "", "boom", "upstream said: HTTP 503 (Service Unavailable)",
             "model v105 done", "model v1.5 done", "a+b=c", "aab=c", "[x] failed", "x failed", "cost $5", "a|b", "^start", "start",
-            "dot.", "dots", "back\\slash", "(", "*", "r\u00e9sum\u00e9 missing"]
+            "dot.", "dots", "back\\slash", "(", "*", "r\u00e9sum\u00e9 missing",
+            "line one\nline two", "\n", "trailing newline\n", "tab\tsep", "\r\nwin"]
     pats = [None, [], ["timeout"], [re.compile(r"^Conn")], ["x", re.compile("thrott")], ["HTTP 503 (Service Unavailable)"], ["v1.5"],
             ["a+b"], ["[x]"], ["$5"], ["a|b", "zzz"], ["^start"], ["dot."], ["back\\slash"], ["("], ["*"], [""], ["r\u00e9sum\u00e9"]]
     types = [None, [], [ValueError], [KeyError, OSError]]
